@@ -948,8 +948,14 @@ class Backend:
         # we only support extracting all the objects in this mode,
         # so just return all object files.
         if self.is_unity(extobj.target):
-            compsrcs = classify_unity_sources(extobj.target.compilers.values(), sources)
-            sources = []
+            # Mirror what is compiled: a source that is listed twice is compiled
+            # once, and assembly and LLVM IR sources are never part of a unity
+            # file, they keep their own object.
+            sources = list(dict.fromkeys(sources))
+            unity_sources = [s for s in sources
+                             if not (compilers.is_assembly(s) or compilers.is_llvm_ir(s))]
+            compsrcs = classify_unity_sources(extobj.target.compilers.values(), unity_sources)
+            sources = [s for s in sources if s not in unity_sources]
             unity_size = self.get_target_option(extobj.target, 'unity_size')
             assert isinstance(unity_size, int), 'for mypy'
 
